@@ -19,6 +19,9 @@ PINNED = '5d16593'      # the commit the line numbers in properties.jsonl refer 
 
 
 
+
+HEAP_LEVEL_CLASSES = ('LEAK', 'QUEUED_MESSAGES_NOT_RELEASED', 'HEAP_NOT_RELEASED')
+
 def as_built_note(prop):
     """The generators' own rule texts describe the first version of each workload; later additions are kept current in the manifest text."""
     try:
@@ -335,6 +338,7 @@ def main():
     os.makedirs(outdir, exist_ok=True)
     known = load_known()
     known_hits = {}
+    unconfirmed_heap = []
     violations = []
     infra = []
 
@@ -466,6 +470,12 @@ def main():
                 total_cands += 1
                 st1 = run_replay(binary, pv['path'])
                 if st1[0] not in ('viol', 'crash'):
+                    # Heap-level oracles compare allocator levels of the worker process (library-attributed live bytes after a session against
+                    # an earlier level in the same run). The allocator of a process that has executed hundreds of runs is not part of the
+                    # simulated world; a candidate of these classes that a fresh process does not confirm is dropped and counted, not reported.
+                    if pv['class'] in HEAP_LEVEL_CLASSES:
+                        unconfirmed_heap.append({'seed': pv['seed'], 'class': pv['class']})
+                        continue
                     infra.append('violation at seed %d (%s/%s) does not reproduce in a fresh process: %s %s' % (pv['seed'], pv['class'], pv['site'], st1[0], st1[1]))
                     continue
                 cls, site = st1[1], st1[2]
@@ -617,6 +627,7 @@ def main():
             'determinism': {'same_seed_twice_hash_checks': merged['twice_checked'], 'violation_candidates_gated': total_cands},
             'regression_replays': reg_results,
             'known_findings_hit': known_hits,
+            'heap_level_candidates_not_confirmed_by_a_fresh_process': unconfirmed_heap,
             'components': COMPONENTS,
             'self_assessment_warnings': warnings,
             'interest_predicate_runs': merged['nontrivial'],
